@@ -18,6 +18,35 @@ theorem C16_map_ignore (c : Cls) (t : Trie V) (name : Str) (v : V) (hc : t.conve
     (h : name = [] ∨ wordsOf c name = []) : t.add c name v = .ok t :=
   AC.add_ignored c t name v hc h
 
+/-- **C16 (look-ups)**: while names are being stored, `get` and `exists` read back exactly what is stored
+    under the folded word sequence of the name asked for: they ignore letter case and the amount of
+    whitespace, and see the latest value (with `C16_map_write`). -/
+theorem C16_get (c : Cls) (t : Trie V) (hc : t.converted = false) (name : Str) (hw : wordsOf c name ≠ []) :
+    t.get c name = (AC.lookupW t (wordsOf c name)).map (fun e => (e.name, e.val)) :=
+  AC.get_lookup c t hc name hw
+
+theorem C16_exists (c : Cls) (t : Trie V) (hc : t.converted = false) (name : Str) (hw : wordsOf c name ≠ []) :
+    t.exists_ c name = (AC.lookupW t (wordsOf c name)).isSome :=
+  AC.exists_lookup c t hc name hw
+
+/-- read after write: the value just stored under any spelling with the same folded words -/
+theorem C16_read_after_write (c : Cls) (t t' : Trie V) (name name' : Str) (v : V) (h : t.add c name v = .ok t')
+    (hw : wordsOf c name ≠ []) (hn : name ≠ []) (hsame : wordsOf c name' = wordsOf c name) :
+    t'.get c name' = some (name, v) := by
+  have hc : t'.converted = false := by
+    unfold Trie.add at h
+    split at h
+    · cases h
+    · next hconv =>
+      split at h
+      · simp at h; subst h; simpa using hconv
+      · simp only at h
+        split at h
+        · simp at h; subst h; simpa using hconv
+        · simp at h; subst h; simpa using hconv
+  rw [AC.get_lookup c t' hc name' (by rw [hsame]; exact hw), hsame, (AC.add_lookup c t t' name v h hw hn).1]
+  rfl
+
 /-- **C16 (enumeration)**: finalising does not change what enumerating the matcher yields. -/
 theorem C16_items (t : Trie V) : t.makeAutomaton.items = t.items := rfl
 
